@@ -23,6 +23,16 @@ import (
 // been modified. Otherwise the named templates have been rendered
 // unusable.
 func escapeTemplate(tmpl *Template, node parse.Node, name string) error {
+	// Remember which output contexts and derived templates are already known, so
+	// that a failed analysis can be undone without forgetting committed results.
+	knownOutput := make(map[string]bool, len(tmpl.esc.output))
+	for k := range tmpl.esc.output {
+		knownOutput[k] = true
+	}
+	knownDerived := make(map[string]bool, len(tmpl.esc.derived))
+	for k := range tmpl.esc.derived {
+		knownDerived[k] = true
+	}
 	c, _ := tmpl.esc.escapeTree(context{}, node, name, 0)
 	var err error
 	if c.err != nil {
@@ -37,6 +47,10 @@ func escapeTemplate(tmpl *Template, node parse.Node, name string) error {
 			t.text.Tree = nil
 			t.Tree = nil
 		}
+		// Forget what the failed analysis recorded. Otherwise a later analysis of a
+		// template that calls this one would be answered from the stale output
+		// context and would go on to execute a template whose tree has been removed.
+		tmpl.esc.rollback(knownOutput, knownDerived)
 		return err
 	}
 	tmpl.esc.commit()
@@ -494,10 +508,11 @@ func (e *escaper) escapeTree(c context, node parse.Node, name string, line int) 
 		return out, dname
 	}
 	t := e.template(name)
-	if t == nil {
-		// Two cases: The template exists but is empty, or has never been mentioned at
-		// all. Distinguish the cases in the error messages.
-		if e.ns.set[name] != nil {
+	if t == nil || t.Tree == nil {
+		// Three cases: The template exists but is empty, its tree was removed because its
+		// own analysis failed, or it has never been mentioned at all. Distinguish
+		// the cases in the error messages.
+		if e.ns.set[name] != nil || t != nil {
 			return context{
 				state: stateError,
 				err:   errorf(ErrNoSuchTemplate, node, line, "%q is an incomplete or empty template", name),
@@ -780,6 +795,26 @@ func (e *escaper) commit() {
 	}
 	// Reset state that is specific to this commit so that the same changes are
 	// not re-applied to the template on subsequent calls to commit.
+	e.called = make(map[string]bool)
+	e.actionNodeEdits = make(map[*parse.ActionNode][]string)
+	e.templateNodeEdits = make(map[*parse.TemplateNode]string)
+	e.textNodeEdits = make(map[*parse.TextNode][]byte)
+}
+
+// rollback discards the state accumulated by an analysis that failed: the
+// output contexts it recorded and the derived templates it created (those not
+// listed in knownOutput and knownDerived), and all pending edits.
+func (e *escaper) rollback(knownOutput, knownDerived map[string]bool) {
+	for name := range e.output {
+		if !knownOutput[name] {
+			delete(e.output, name)
+		}
+	}
+	for name := range e.derived {
+		if !knownDerived[name] {
+			delete(e.derived, name)
+		}
+	}
 	e.called = make(map[string]bool)
 	e.actionNodeEdits = make(map[*parse.ActionNode][]string)
 	e.templateNodeEdits = make(map[*parse.TemplateNode]string)
